@@ -124,6 +124,19 @@ fn main() {
         std::process::exit(64);
     }
     let cmd = pos[0].as_str();
+    if cmd == "count-distinct" {
+        // union of the u64 hash files written by workers
+        let mut all: Vec<u64> = Vec::new();
+        for path in &pos[1..] {
+            if let Ok(bytes) = std::fs::read(path) {
+                all.extend(bytes.chunks_exact(8).map(|c| u64::from_le_bytes(c.try_into().unwrap())));
+            }
+        }
+        all.sort_unstable();
+        all.dedup();
+        println!("{}", all.len());
+        return;
+    }
     let code = props::dispatch(cmd, pos[1].as_str(), &pos, &flags);
     std::process::exit(code);
 }
